@@ -30,7 +30,10 @@ POOLS = os.path.join(common.SPEC, "gen", "eval_pools.ndjson")
 POOL_LABEL = {"confuse": "texts that coincide under white-space / case normalisation, in both orders in one process",
               "bool": "boolean formulas of depth <= 2 over ordering comparisons with non-number operands, also as filter predicates",
               "inflate": "nested projections over per-element temporaries, inner arrays crossing the sizes 8 / 16 / 21 / 64",
-              "alias": "the same document node reached twice (both operands, two calls on one array of 16 / 17 elements)"}
+              "alias": "the same document node reached twice (both operands, two calls on one array of 16 / 17 elements)",
+              "hash": "multi-select hashes with keys out of order / repeated / non-ASCII in every position and with every continuation",
+              "nest": "by-functions and map inside the expression reference of a by-function",
+              "compose": "every built-in on what the any-typed built-ins pass through (expression references inside containers included)"}
 
 
 def pool_families(fams, work, ev, drv, nsamples=1):
@@ -68,7 +71,7 @@ def run(prop, tier, seed, work, ev):
     gen(work, "chains", c, n=t["chains"])
     rejects += run_and_judge("operator chains: primary + every sequence of <= %d postfix operators x 3 nested documents" % t["chains"],
                              c, work, ev, drv, docs=c + ".docs")
-    rejects += pool_families(["confuse", "bool", "inflate", "alias"], work, ev, drv)
+    rejects += pool_families(["confuse", "bool", "inflate", "alias", "hash", "nest"], work, ev, drv)
     params = work.path("rand.in")
     e = dict(os.environ, GEN_MAXLEN=str(t["maxlen"]))
     subprocess.check_call([drv, "gen", "eval", str(seed), str(t["rand"]), params], env=e)
